@@ -105,6 +105,10 @@ def binop(I, op, a, b, node):
                         I.oos(node, "real ** negative int")
                     return mk_real(T.rpow(x, e))
                 I.oos(node, "real ** real")
+            if isinstance(op, (ast.BitAnd, ast.BitOr, ast.BitXor, ast.LShift, ast.RShift)) and not I.spec:
+                I.raise_('TypeError', node)       # unsupported operand type(s): float
+            if isinstance(op, ast.FloorDiv) or isinstance(op, ast.Mod):
+                I.oos(node, "float // or %")
             I.oos(node, f"real operator {type(op).__name__}")
         x, y = as_int_term(a), as_int_term(b)
         if isinstance(op, ast.Add):
